@@ -667,6 +667,10 @@ def _run_assign(spec, rec):
             c2 = dcfg.Configuration(cfg=cfg) if how == "ctor-from-config" else cfg.copy()
         for s in final:
             got = _snap(c2[s]) if s in c2 else {}
+            if s == "filtering":  # a new Configuration always carries the defaults
+                got = {k: v for k, v in got.items()
+                       if k in final[s] or not (k in lm.FILTER_DEFAULTS
+                                                and eq(v, lm.FILTER_DEFAULTS[k]))}
             if not _same_state(got, final[s]):
                 bad = [k for k in final[s] if k not in got or not eq(got[k], final[s][k])
                        or type(got[k]) is not type(final[s][k])]
@@ -743,6 +747,9 @@ def _run_text(spec, rec, d):
             if status != "ok" or disc:
                 rec.skip("text:not-a-valid-representation")
                 continue
+            if kind == "R" and lm._scalar(obj) is None:
+                rec.skip("text:range-value-not-a-number")
+                continue
             if isinstance(obj, (str, bytes)) and not (isinstance(obj, str) and _text_safe(obj)):
                 rec.skip("text:string-not-expressible-in-file-syntax")
                 continue
@@ -790,14 +797,15 @@ def _run_text(spec, rec, d):
                 if kd == "R" or (kd == "U" and not isinstance(v, str)):
                     rec.skip("text:untyped-value-comes-back-as-text")
                     continue
-                rec.check(_text_equal(kd, got, v),
-                          f"text/save-load/{lm.KINDNAME[kd]}/{type(v).__name__}",
+                sig = f"text/save-load/{lm.KINDNAME[kd]}/{type(v).__name__}"
+                if kd == "N" and 0 in v:
+                    sig = "value/intlist/falsy-element"
+                rec.check(_text_equal(kd, got, v), sig,
                           lambda: f"[{s}] {k}: saved {_short(v)}, loaded {_short(got)}")
         return
     # hand-written file
     lines = []
-    model = {"filtering": dict(lm.FILTER_DEFAULTS)}
-    plainmodel = {}
+    model = {"filtering": {}}
     cur = None
     entries = list(spec["entries"])
     for i, e in enumerate(entries):
@@ -863,10 +871,11 @@ def _run_text(spec, rec, d):
             g = got.get(k, "<absent>")
             ok = eq(g, exp) and type_ok(kind, g) if kind not in "RU" else (
                 eq(g, exp) and type(g) is type(exp))
-            rec.check(ok, f"text/load/{lm.KINDNAME[kind]}",
+            rec.check(ok, "value/intlist/falsy-element" if kind == "N" and 0 in exp
+                      else f"text/load/{lm.KINDNAME[kind]}",
                       lambda: f"[{sec}] {k}: expected {_short(exp)}, loaded {_short(g)}\n"
                               + "\n".join(lines))
-            if sec in plain and kind not in "RU":
+            if sec in plain and kind not in "RU" and k in model[sec]:
                 g2 = plain[sec].get(k, "<absent>")
                 rec.check(eq(g2, exp) and type_ok(kind, g2),
                           f"text/load_from_file/{lm.KINDNAME[kind]}",
@@ -893,7 +902,8 @@ def _attr_type_ok(kind, a):
     if kind == "X":
         return isinstance(a, (bool, np.bool_, float, np.floating))
     if kind in ("P", "A"):
-        return isinstance(a, np.ndarray) and a.dtype == np.float64
+        return (isinstance(a, np.ndarray) and a.dtype == np.float64) or (
+            kind == "A" and isinstance(a, np.float64))  # 0-d input
     return True
 
 
@@ -909,6 +919,8 @@ def _user_expect(obj):
 def _user_ok(got, want):
     if isinstance(want, str):
         return isinstance(got, str) and got == want
+    if isinstance(want, np.ndarray) and want.ndim == 0:
+        want = want[()]
     if isinstance(want, (list, tuple, np.ndarray)):
         return isinstance(got, np.ndarray) and eq(got, np.asarray(want))
     return eq(got, want) and lm.same_class(got, want)
@@ -916,6 +928,8 @@ def _user_ok(got, want):
 
 def _h5_storable_user(obj):
     """homogeneous numeric containers, scalars and strings (documented user types)"""
+    if isinstance(obj, np.str_):
+        return False  # h5py has no conversion for numpy unicode scalars
     if isinstance(obj, (str, bytes)):
         return "\x00" not in (obj if isinstance(obj, str) else obj.decode())
     if isinstance(obj, (bool, float, np.generic)):
@@ -948,7 +962,7 @@ class _Expect:
                 continue
             got = cfg[sec].get(key, "<absent>") if sec in cfg else "<absent>"
             if kind in "RU":
-                ok = eq(got, exp) and lm.same_class(got, exp)
+                ok = _user_ok(got, exp)
             else:
                 ok = eq(got, exp) and type_ok(kind, got)
             rec.check(ok, f"h5/{tag}/{lm.KINDNAME[kind]}",
@@ -1048,6 +1062,9 @@ def _run_h5(spec, rec, d):
                 continue
         if (sec, key) == ("setup", "software version"):
             s = obj.decode() if isinstance(obj, bytes) else str(obj)
+            if not isinstance(obj, (str, bytes)):
+                rec.skip("h5:software-version-not-text")
+                continue
             if "|" in s or s != s.strip() or "dclab" in s or not s:
                 rec.skip("h5:software-version-chain-syntax")
                 continue
@@ -1056,6 +1073,11 @@ def _run_h5(spec, rec, d):
             continue
         if kind in "SL" and "\x00" in val:
             continue
+        if kind == "R":
+            if not _h5_storable_user(obj) or (isinstance(obj, (str, bytes)) and not obj):
+                rec.skip("h5:range-value-not-a-documented-type")
+                continue
+            val = _user_expect(obj)
         (meta1 if i < half else meta2).setdefault(sec, {})[key] = obj
         exp.known[(sec, key)] = (kind, val)
         rec.cls(f"h5-kind:{lm.KINDNAME[kind]}")
@@ -1123,7 +1145,7 @@ def _run_h5(spec, rec, d):
                         ds.config[sec][key] = obj
             if users:
                 ds.config.update({"user": users})
-            ds.export.hdf5(path, features=["deform"])
+            ds.export.hdf5(path, features=["deform"], filtered=False)
     else:  # raw h5py attributes on top of a minimal file
         with RTDCWriter(path) as hw:
             hw.store_metadata(base)
